@@ -154,6 +154,20 @@ func genC13(r *Rand, n int, thorough bool, emit func(string)) {
 	}
 	offsets := []int{0, 0, 0, 1000000000, -1000000000, 1000000000000, -1000000000000, 1 << 60, -(1 << 60), 1712345678001234567, 9007199254740993}
 	for i := 0; i < n; i++ {
+		if i%89 == 50 {
+			// a step at the edge of int64: one value, whatever the span
+			big := r.PickInt([]int{9223372036854775807, 9223372036854775806, 9223372036854775807 - 10, 1 << 62, 4611686018427387905})
+			s, e := r.Range(-20, 20), r.Range(-20, 20)
+			if s > e {
+				big = -big
+			}
+			if r.Bool() {
+				emit(rngOp(r, s, e, big))
+			} else {
+				emit(rngsOp(r, [][3]int{{s, e, big}, {s + 1, s + 3, 1}}))
+			}
+			continue
+		}
 		if i%97 == 96 {
 			// a stepped block, then a long contiguous range (2049-6000 values) over it, either direction
 			a := r.Range(-50, 50)
